@@ -883,6 +883,11 @@ func (st *AclState) applyReadKeyChange(ch *aclrecordproto.AclReadKeyChange, reco
 			return err
 		}
 	}
+	if n := len(st.readKeyChanges); n > 0 && st.readKeyChanges[n-1] == record.Id && st.shouldValidate() {
+		// keys are stored per record id: a second key change in the same record would overwrite the first one
+		// and break the chain of previous read keys for every account that joins afterwards
+		return ErrReadKeyChangeNotAlone
+	}
 	st.readKeyChanges = append(st.readKeyChanges, record.Id)
 	mkPubKey, err := st.keyStore.PubKeyFromProto(ch.MetadataPubKey)
 	if err != nil {
@@ -925,6 +930,11 @@ func (st *AclState) applyReadKeyChange(ch *aclrecordproto.AclReadKeyChange, reco
 	}
 	st.keys[record.Id] = aclKeys
 	return nil
+}
+
+func (st *AclState) shouldValidate() bool {
+	v, ok := st.contentValidator.(*contentValidator)
+	return ok && v.verifier.ShouldValidate()
 }
 
 func (st *AclState) unmarshallDecryptReadKey(msg []byte, decryptor func(msg []byte) ([]byte, error)) (crypto.SymKey, error) {
